@@ -73,4 +73,32 @@ CLAIMS = {
         'design_ref': 'DESIGN.md 4.7, 5 (C14)',
         'note': TRUST + '; assumes the callback maps a vector to a vector of the same length',
     },
+    'C08': {
+        'technique': 'static analysis: affine interval abstract interpretation of the sweep (validity / canonical-form intervals, derived loop invariants), symbolic schedule, effects, call reachability',
+        'text': 'For all L (symbolically; the smallest lattices with L fixed): every local step of both TDVP integrators receives '
+                'the environments, MPO tensors and state tensors of its own sites, environments are never used stale, the '
+                'steps act at the orthogonality centre; per site/bond the step fractions sum to +1/-1 (a wrong half step or '
+                'sign is reported); -dt reaches the exponential; H is never written; the return value is the entry norm; '
+                'single-site TDVP reaches no bond-enlarging operation.  Conservation to rounding is not decided.',
+        'design_ref': 'DESIGN.md 4.3, 4.1, 5 (C08)',
+        'note': TRUST + '; obligations that cannot be established for every position of a sweep are reported as violations',
+    },
+    'C09': {
+        'technique': 'static analysis: symbolic extraction of the sub-step schedule and comparison with its reversal; canonical-form intervals',
+        'text': 'Decides the structural reason for reversibility: for every L the schedule of local steps of one time step of '
+                'both integrators (kind, position affine in the loop variable, rational step fraction) is a palindrome, and '
+                'the split direction keeps every step at the orthogonality centre.  Exactness on a complete manifold and the '
+                'size of the reversibility defect are numerical and not decided.',
+        'design_ref': 'DESIGN.md 4.3, 5 (C09)',
+        'note': TRUST,
+    },
+    'C10': {
+        'technique': 'static analysis: affine interval abstract interpretation of the DMRG sweeps, effects, def-use rules',
+        'text': 'For all L >= 2: local eigenproblems are started from the current tensor with the effective Hamiltonian of the '
+                'right bonds, never with stale environments, on a mixed-canonical state; H is never written; each sweep ends '
+                'with the normalisation of the leftmost tensor; the recorded energy is the Ritz value of the last local '
+                'problem of the sweep.  Variational bounds, monotonicity and convergence are not decided.',
+        'design_ref': 'DESIGN.md 4.3, 4.1, 5 (C10)',
+        'note': TRUST,
+    },
 }
